@@ -138,6 +138,31 @@ theorem tz_readers_total (bytes : List Nat) (ext : Bool) :
     Tz.parse bytes ≠ .panic ∧ Tz.from_tz_string bytes ext ≠ .panic :=
   ⟨C16.parse_total bytes, C16.rule_total bytes ext⟩
 
+/-- **the `MappedLocalTime`-typed entry points of `Local`** (audit 2; F32 repaired by 770977e):
+`Local.timestamp_opt` / `timestamp_millis_opt` / `timestamp_micros` / `timestamp_nanos` /
+`from_utc_datetime` / `Local::now()` — all of them `Local.from_utc_datetime` of an instant, i.e. the
+`unwrap` of `<Local as TimeZone>::offset_from_utc_datetime` (`TzL.local_offset_from_utc_datetime`,
+`TzL.local_timestamp_opt`, Model/TzLocal.lean) — return normally for EVERY zone the readers accept
+(TZif bytes or a `TZ` rule text) and EVERY second count: outside the `NaiveDateTime` range `None` by
+value, inside it `Single` with an offset strictly within 24 h.  The zone comes from the environment,
+not from an argument; before the repair `TZ=XXX24` made every one of these calls panic
+(`C16.local_panics_pinned_before_F32`). -/
+theorem local_entry_points_total :
+    (∀ (bytes : List Nat) (z : Tz.Zone), Tz.parse bytes = .ok z → ∀ secs : Int,
+        TzL.local_timestamp_opt z secs ≠ .panic ∧
+        (TzL.NDT_MIN_TS ≤ secs ∧ secs ≤ TzL.NDT_MAX_TS →
+          ∃ o, TzL.local_offset_from_utc_datetime z secs = .ok o ∧ -86400 < o ∧ o < 86400))
+    ∧ (∀ (text : List Nat) (ext : Bool) (r : Tz.Rule), Tz.from_tz_string text ext = .ok r → ∀ secs : Int,
+        TzL.NDT_MIN_TS ≤ secs ∧ secs ≤ TzL.NDT_MAX_TS →
+          ∃ o, TzL.local_offset_from_utc_datetime (Proofs.TzValid.zoneOfRule r) secs = .ok o
+            ∧ -86400 < o ∧ o < 86400) := by
+  refine ⟨fun bytes z h secs => ⟨C16.local_timestamp_total bytes z h secs, fun hs => ?_⟩,
+    fun text ext r h secs hs => ?_⟩
+  · obtain ⟨o, h1, -, h3, -⟩ := C16.local_offset_total bytes z h secs hs
+    exact ⟨o, h1, h3.1, h3.2⟩
+  · obtain ⟨o, h1, -, h3, -⟩ := C16.local_offset_total_tz_string text ext r h secs hs
+    exact ⟨o, h1, h3.1, h3.2⟩
+
 /-- iterating a weekday set in any interleaving of front and back pulls never hits the `expect`s -/
 theorem weekday_iter_total (sched : List Bool) (s : Nat) (start : Weekday) (hs : s < 128) :
     ∃ r, WeekdaySet.runSchedule sched ⟨s, start⟩ = .ok r := by
